@@ -279,15 +279,22 @@ pub fn scenario(i: usize) -> Scenario {
         &["https://x/root.ts"],
       );
       s.install = Box::new(|l| {
-        l.add_text("https://x/root.ts", "import \"jsr:@s/p@^1.0.0-beta.1\";\nimport \"jsr:@s/p@1.0.0-beta.2\";\n");
+        l.add_text("https://x/root.ts", "import \"jsr:@s/p@^1.0.0-beta.1\";\nimport \"jsr:@s/p@1.0.0-beta.2\";\nimport \"jsr:@s/q@^1\";\n");
         RegPackage {
           name: "@s/p".into(),
           versions: ["1.0.0-beta.1", "1.0.0-beta.2", "1.0.0-beta.10", "1.0.0-rc.1"].iter().map(|v| RegVersion::new(v, &[("/mod.ts", "export const p = 1;\n")])).collect(),
           raw_meta: None,
         }
         .install(l);
+        // two releases that differ only in build metadata (equal precedence)
+        RegPackage {
+          name: "@s/q".into(),
+          versions: ["0.9.0", "1.0.0+a", "1.0.0+b"].iter().map(|v| RegVersion::new(v, &[("/mod.ts", "export const q = 1;\n")])).collect(),
+          raw_meta: None,
+        }
+        .install(l);
       });
-      s.describe = json!({"root": "import jsr:@s/p@^1.0.0-beta.1; import jsr:@s/p@1.0.0-beta.2", "registry": "@s/p 1.0.0-beta.1 1.0.0-beta.2 1.0.0-beta.10 1.0.0-rc.1 (the version map of the metadata iterates in every order)"});
+      s.describe = json!({"root": "import jsr:@s/p@^1.0.0-beta.1; import jsr:@s/p@1.0.0-beta.2; import jsr:@s/q@^1", "registry": "@s/p 1.0.0-beta.1 1.0.0-beta.2 1.0.0-beta.10 1.0.0-rc.1; @s/q 0.9.0 1.0.0+a 1.0.0+b (the version maps of the metadata iterate in every order)"});
       s
     }
     _ => unreachable!(),
